@@ -385,10 +385,50 @@ def run_property(modname, tier, seed, workers=None):
             results = pool.map(_run_worker, jobs, chunksize=1)
     for r in results:
         total.merge(r)
-    return finish(mod, tier, seed, total, time.time() - t0, len(replays), len(enum))
+    fuzz_info = run_fuzz_children(mod, modname, tier, seed, total)
+    return finish(mod, tier, seed, total, time.time() - t0, len(replays), len(enum), fuzz_info)
 
 
-def finish(mod, tier, seed, total, wall, n_replays, n_enum):
+def run_fuzz_children(mod, modname, tier, seed, total):
+    """Extra coverage-guided driver (atheris) for modules that declare FUZZ = {tier: {"runs": n, "children": k}}."""
+    cfg = getattr(mod, "FUZZ", {}).get(tier)
+    if not cfg:
+        return None
+    import subprocess
+    import tempfile
+
+    try:
+        sys.path.insert(0, str(HOME / ".deps"))
+        import atheris  # noqa: F401  pylint: disable=unused-import
+    except Exception as e:  # pylint: disable=broad-except
+        return {"skipped": f"atheris not importable ({e}); run ./check --setup"}
+    tmp = tempfile.mkdtemp(prefix="yv_fuzz_")
+    procs = []
+    for i in range(cfg.get("children", 4)):
+        out = os.path.join(tmp, f"stats{i}.json")
+        e = dict(os.environ)
+        e["PYTHONPATH"] = e.get("PYTHONPATH", "") + os.pathsep + str(HOME / ".deps")
+        procs.append((out, subprocess.Popen([sys.executable, "-m", "yv.fuzz", modname, str(int(seed) * 100 + i + 1), str(cfg["runs"]), out],
+                                            cwd=str(HOME), env=e, stdout=subprocess.DEVNULL, stderr=subprocess.DEVNULL)))
+    info = {"driver": "atheris/libFuzzer through hypothesis.fuzz_one_input", "children": len(procs), "runs_per_child": cfg["runs"], "executions": 0}
+    for out, pr in procs:
+        try:
+            pr.wait(timeout=cfg.get("wall", 1800))
+        except subprocess.TimeoutExpired:
+            pr.kill()
+        if os.path.exists(out):
+            d = json.load(open(out))
+            info["executions"] += d.pop("fuzz_executions", 0)
+            d.pop("fuzz_wall_s", None)
+            d["labels"]["driver:atheris"] = d["evaluations"]
+            total.merge(d)
+    import shutil
+
+    shutil.rmtree(tmp, ignore_errors=True)
+    return info
+
+
+def finish(mod, tier, seed, total, wall, n_replays, n_enum, fuzz_info=None):
     known = load_known(mod.ID)
     lines = []
     for e in known:
@@ -446,6 +486,8 @@ def finish(mod, tier, seed, total, wall, n_replays, n_enum):
         "wall_s": round(wall, 2),
         "violations": len(seen),
     }
+    if fuzz_info:
+        ev["coverage"]["coverage_guided_fuzzing"] = fuzz_info
     extra = getattr(mod, "evidence_extra", None)
     if extra:
         ev["coverage"].update(extra(tier))
